@@ -7,7 +7,7 @@ package dtlcp
 // genuine one (any order, duplicates allowed) or an arbitrary forgery of a genuine length with an
 // attacker-chosen epoch; the receiver calls ReadFrom (mode 0) or Read (mode 1).
 //
-//verif:harness props=C16,C05,C04,C09 paths=600000 tpaths=6000000 split spin=C09.progress.readLoopTerminates reach=delivered,dropped
+//verif:harness props=C16,C09 paths=600000 tpaths=6000000 split spin=C09.progress.readLoopTerminates reach=delivered,dropped
 func VerifHarness_C16_conn() {
 	kind := verifSplitInt("cipher", vcGCM, vcCBC)
 	mode := verifSplitInt("readPath", 0, 1)
